@@ -9,6 +9,9 @@ NOTE = ('Trusted: Lean 4.33 kernel; axioms within {propext, Classical.choice, Qu
         'Python generators/oracles; 64-bit usize.')
 
 CLAIMS = {
+ 'C09': dict(category='proof', technique='Lean 4 model of the cookie-factory serializers (truncating casts as written) proved equal to the RFC encoder of the normal form under the wire limits; round trip = parser round-trip theorems; three-stage correspondence (serialize / re-parse / re-serialize)',
+   text='Theorems serClientHello_eq / clientHello_serialize_roundtrip, serverHello_serialize_roundtrip, sslv3ServerHello_serialize_roundtrip, serverHello13d18_serialize_roundtrip, clientKeyExchange_serialize_roundtrip (Unknown / Dh / Ecdh read back as the opaque length-prefixed value), finished_ / helloRequest_ / ccs_serialize_roundtrip, plaintext_serialize_roundtrip (records of serializable handshake / CCS messages: the u16 length is the payload length, parsing consumes everything), extension_serialize_roundtrip (SNI, max-fragment-length, supported groups), unsupported_* (NotYetImplemented, never bytes), encLD_length_field (every emitted length field is the length of what it prefixes). Tie: value descriptions within and beyond the wire limits serialized by the real code and by the Lean model (exact equality), compared with an independent encoder, re-parsed by the real parser and re-serialized.',
+   design_ref='DESIGN.md section 6 C09'),
  'C15': dict(category='proof', technique='Lean 4 theorems on the accessor model (rand_time / rand_bytes / cipher_suites) and on parsed hellos + exact-oracle execution of every accessor and constructor',
    text='Theorems randTime_eq (big-endian u32 of the first four random bytes), randBytes_eq, rand_split, randTime_lt, parsed_hello_random (every parsed ClientHello has a 32-byte random, 28 rand_bytes, rand_time = first four bytes), cipherSuites_length / cipherSuites_get (each advertised id, in order, maps to its registry lookup). The plain accessors are the structure fields. Tie: parsed TLS and DTLS ClientHellos and constructed ClientHello / ServerHello values (boundary random lengths and leading words) with every accessor compared with the generator\'s own field values and the registry file.',
    design_ref='DESIGN.md section 6 C15'),
